@@ -162,6 +162,15 @@ def r07_3(rep, M, rid):
                     first_pos_var = norm(lp.target.elts[1])
                 elif isinstance(lp, ast.For) and norm(lp.iter) == second and isinstance(lp.target, ast.Name):
                     first_pos_var = lp.target.id
+    # every per-atom array read inside WyckoffSet(...) - including the lookup of the representative expression - uses that position
+    per_atom_names = set().union(*srcs.values()) if srcs else set()
+    all_idx = {norm(x.slice) for k0, v0 in kw.items() for x in ast.walk(v0) if isinstance(x, ast.Subscript) and norm(x.value) in per_atom_names}
+    stray = sorted(all_idx - {first_pos_var}) if first_pos_var is not None else []
+    if stray and idxs == {first_pos_var}:
+        bad_kw = sorted(k0 for k0, v0 in kw.items() if any(isinstance(x, ast.Subscript) and norm(x.value) in per_atom_names and norm(x.slice) in stray for x in ast.walk(v0)))
+        rep.violation(rid, f"_get_wyckoff_sets: WyckoffSet({', '.join(bad_kw)}=...) index", f"a per-atom array is read at `{stray[0]}` inside `{bad_kw[0]}=`, while letter and element of the "
+                      f"same set are read at the position of the orbit's first atom `{first_pos_var}`: `{stray[0]}` is an orbit label (an atom index of the *original* cell), so for "
+                      "centred lattices, supercells and reordered inputs the set carries the expression of another position (or the lookup runs out of range)", M.where(fq, ctor[0]))
     right_index = first_pos_var is not None and idxs == {first_pos_var}
     if len(idxs) == 1 and not right_index:
         rep.violation(rid, "_get_wyckoff_sets: set attributes index", f"letter/element/number of a set are read at `{sorted(idxs)[0]}`, which is not the position of "
